@@ -17,7 +17,17 @@ def vm_cfgs():
     return out   # 12 supported flag sets
 
 
-def ref_tables(combos, wd):
+NBULK = 48
+
+
+def bulk_inputs(seed, idx):
+    """seeded inputs for the bulk interpreter-vs-JIT comparison of scenario idx: name -> bytes"""
+    import random
+    rnd = random.Random(seed * 7919 + idx)
+    return {'B%d_%d' % (idx, k): bytes(rnd.getrandbits(8) for _ in range(1 + rnd.randrange(150))) for k in range(NBULK)}
+
+
+def ref_tables(combos, wd, bulk=None):
     binp = apiscen.exe()
     os.makedirs(wd, exist_ok=True)
 
@@ -25,8 +35,13 @@ def ref_tables(combos, wd):
         ks, iset = c
         data = os.path.join(wd, 'data_%d_%d.txt' % c)
         apiscen.write_data(data, ks, iset)
+        extra = (bulk or {}).get(c, {})
+        with open(data, 'a') as f:
+            for nm, b in sorted(extra.items()):
+                f.write('input %s %s\n' % (nm, apiscen.hx(b)))
         scn = os.path.join(wd, 'ref_%d_%d.scn' % c)
-        open(scn, 'w').write(''.join('FreshRef %s %s %d\n' % (k, i, v) for k in ('K1', 'K2') for i in ('I1', 'I2') for v in (0, 1)))
+        open(scn, 'w').write(''.join('FreshRef %s %s %d\n' % (k, i, v) for k in ('K1', 'K2') for i in ('I1', 'I2') for v in (0, 1))
+                             + ''.join('FreshRef K1 %s %d\n' % (nm, int(nm.rsplit('_', 1)[1]) % 2) for nm in sorted(extra)))
         outp = os.path.join(wd, 'ref_%d_%d.txt' % c)
         vlib.sh([binp, '--scenario', scn, '--data', data, '--out', outp], timeout=1200)
         return c, (data, outp)
@@ -34,7 +49,7 @@ def ref_tables(combos, wd):
         return dict(ex.map(one, combos))
 
 
-def scenario(cachejit, argon, ks_inputs, thorough, idx):
+def scenario(cachejit, argon, ks_inputs, thorough, idx, seed=1):
     """one cache configuration, then every VM flag set x version on it (dataset filled by this cache's own initialiser)"""
     L = ['AllocCache c1 any any jit=%d argon=%d' % (cachejit, argon), 'InitCache c1 K1', 'AllocDataset d1 dm1 nchunks=1', 'InitDatasetChunk d1 c1 1 self=1']
     n = 0
@@ -50,6 +65,14 @@ def scenario(cachejit, argon, ks_inputs, thorough, idx):
                 inputs = ['I1'] if v2 else ['I2']
             for i in inputs:
                 L.append('Hash v1 %s key=K1' % i)
+            L.append('DestroyVm v1')
+    # many seeded inputs through the interpreter and the JIT on the same cache: engine disagreements that need a particular
+    # instruction pattern in one of the 8 random programs show only on some inputs
+    for v2 in (0, 1):
+        names = [nm for nm in sorted(bulk_inputs(seed, idx)) if int(nm.rsplit('_', 1)[1]) % 2 == v2]
+        for kind, hard, sec in (('IL', 0, 0), ('CL', 1, 1)):
+            L.append('CreateVm v1 %s c1 none v2=%d hard=%d secure=%d' % (kind, v2, hard, sec))
+            L += ['Hash v1 %s key=K1' % nm for nm in names]
             L.append('DestroyVm v1')
     # second key on the same cache object (re-keyed), a few configurations
     L += ['InitCache c1 K2', 'CreateVm v1 CL c1 none v2=0 hard=1 secure=1', 'Hash v1 I1 key=K2', 'DestroyVm v1',
@@ -92,8 +115,11 @@ def run():
         for idx, (cj, ar) in enumerate(cachecfgs):
             ks = (idx + rep * 3 + ck.seed) % nks
             iset = (idx + rep + ck.seed) % len(apiscen.INPUTSETS)
-            scens.append({'text': scenario(cj, ar, None, ck.thorough, idx + rep), 'ks': ks, 'iset': iset, 'cj': cj, 'ar': ar})
-    tabs = ref_tables(sorted(set((s['ks'], s['iset']) for s in scens)), os.path.join(wd, 'ref'))
+            scens.append({'text': scenario(cj, ar, None, ck.thorough, idx + rep, ck.seed), 'ks': ks, 'iset': iset, 'cj': cj, 'ar': ar, 'idx': idx + rep})
+    bulk = {}
+    for s_ in scens:
+        bulk.setdefault((s_['ks'], s_['iset']), {}).update(bulk_inputs(ck.seed, s_['idx']))
+    tabs = ref_tables(sorted(set((s['ks'], s['iset']) for s in scens)), os.path.join(wd, 'ref'), bulk)
     for s in scens:
         s['data'], s['fresh'] = tabs[(s['ks'], s['iset'])]
     traces = apiscen.replay(scens, os.path.join(wd, 'replay'), watchdog=900)
